@@ -16,6 +16,7 @@ const (
 	NParam         // injector parameter (no deps)
 	NStructV       // like NStruct but consumers depend on the value form T_i (only legal when acyclic)
 	NPtrField      // *T_i selected as pointer-to-field from FieldsOf(new(*H_i)) where *H_i is built by PH_i(deps...)
+	NExternal      // a declared type nobody provides (an input of the set; only meaningful for wire show)
 )
 
 // Type shapes of a node's provided type.
@@ -65,6 +66,7 @@ type GraphSpec struct {
 	ExtraDecl  string
 	Second     int // second injector sharing the same items: 0 none, 1 declared after Init, 2 declared before Init
 	SecondRoot int // node returned by the second injector
+	ShowOnly   bool // keep the named set as a top-level variable and replace the injector by an unrelated trivial one
 	InjMore    bool // injector declares error and cleanup results whether needed or not
 	Split      bool // the items of lib nodes go to a named set declared in the lib package, included by the main set
 	Hist       int
@@ -248,6 +250,17 @@ func (g *GraphSpec) Build() (*ir.Program, []*ir.Type) {
 		}
 	}
 	prog := &ir.Program{Root: p, Injectors: []*ir.Injector{inj}, Hist: g.Hist, ExtraDecl: g.ExtraDecl, PairSets: g.PairSets}
+	if g.ShowOnly {
+		z := b.Leaf(p, "Z")
+		for _, it := range inj.Items {
+			if it.Kind == ir.ISetRef {
+				prog.ExtraSets = append(prog.ExtraSets, it.Set)
+			}
+		}
+		prog.ExtraTypes = append(prog.ExtraTypes, types...)
+		prog.Injectors = []*ir.Injector{{Name: "InitZ", Out: z, Items: []*ir.Item{ir.FuncItem(&ir.Func{Pkg: p, Name: "PZ", Out: z})}}}
+		return prog, types
+	}
 	if g.Second > 0 {
 		// a second injector over the very same items (shared set objects), asking for another node
 		inj2 := &ir.Injector{Name: "Init2", Out: types[g.SecondRoot], Params: params, Items: inj.Items}
